@@ -166,6 +166,10 @@ func checkFuzz(tb tb, prop func(*T), input []byte) {
 		input = input[n:]
 	}
 
+	if verifOn {
+		verifEmit("fuzz.buf", "input", append([]byte{}, input...), "words", verifWords(buf))
+		verifEmit("phase", "kind", "fuzz")
+	}
 	t := newT(tb, newBufBitStream(buf, false), true, nil)
 	err := checkOnce(t, prop)
 
@@ -191,6 +195,9 @@ func checkTB(tb tb, deadline time.Time, prop func(*T)) {
 
 	start := time.Now()
 	valid, invalid, earlyExit, seed, failfile, buf, err1, err2 := doCheck(tb, deadline, checks, baseSeed(), flags.failfile, true, prop)
+	if verifOn {
+		verifEmit("docheck.ret", "checks", checks, "valid", valid, "invalid", invalid, "earlyExit", earlyExit, "seed", seed, "failfile", failfile, "buf", verifWords(buf), "err1", verifErr(err1), "err2", verifErr(err2))
+	}
 	dt := time.Since(start)
 
 	if err1 == nil && err2 == nil {
@@ -204,6 +211,9 @@ func checkTB(tb tb, deadline time.Time, prop func(*T)) {
 			_, failfile = failFileName(tb.Name())
 			out := captureTestOutput(tb, prop, buf)
 			err := saveFailFile(failfile, rapidVersion, out, seed, buf)
+			if verifOn {
+				verifEmit("save", "file", failfile, "seed", seed, "buf", verifWords(buf), "ok", err == nil)
+			}
 			if err != nil {
 				tb.Logf("[rapid] %v", err)
 				failfile = ""
@@ -231,6 +241,9 @@ func checkTB(tb tb, deadline time.Time, prop func(*T)) {
 			tb.Errorf("[rapid] flaky test, can not reproduce a failure\nTo try to reproduce, specify -run=%q %v\nTraceback (%v):\n%vOriginal traceback (%v):\n%vFailed test output:", name, repr, err2, traceback(err2), err1, traceback(err1))
 		}
 
+		if verifOn {
+			verifEmit("phase", "kind", "final", "buf", verifWords(buf))
+		}
 		_ = checkOnce(newT(tb, newBufBitStream(buf, false), true, nil), prop) // output using (*testing.T).Log for proper line numbers
 	}
 
@@ -252,6 +265,9 @@ func doCheck(tb tb, deadline time.Time, checks int, seed uint64, failfile string
 		matches, _ := filepath.Glob(failFilePattern(tb.Name()))
 		failfiles = append(failfiles, matches...)
 	}
+	if verifOn {
+		verifEmit("failfiles", "files", append([]string{}, failfiles...), "baseSeed", seed, "checks", checks)
+	}
 	for _, failfile := range failfiles {
 		buf, err1, err2 := checkFailFile(tb, failfile, prop)
 		if err1 != nil || err2 != nil {
@@ -266,6 +282,9 @@ func doCheck(tb tb, deadline time.Time, checks int, seed uint64, failfile string
 
 	s := newRandomBitStream(seed, true)
 	t := newT(tb, s, flags.verbose, nil)
+	if verifOn {
+		verifEmit("phase", "kind", "repro", "seed", seed)
+	}
 	t.Logf("[rapid] trying to reproduce the failure")
 	err2 := checkOnce(t, prop)
 	if !sameError(err1, err2) {
@@ -282,6 +301,9 @@ func checkFailFile(tb tb, failfile string, prop func(*T)) ([]uint64, *testError,
 	tb.Helper()
 
 	version, _, buf, err := loadFailFile(failfile)
+	if verifOn {
+		verifEmit("ff.load", "file", failfile, "ok", err == nil, "version", version, "sameVersion", version == rapidVersion, "buf", verifWords(buf))
+	}
 	if err != nil {
 		tb.Logf("[rapid] ignoring fail file: %v", err)
 		return nil, nil, nil
@@ -293,6 +315,9 @@ func checkFailFile(tb tb, failfile string, prop func(*T)) ([]uint64, *testError,
 
 	s1 := newBufBitStream(buf, false)
 	t1 := newT(tb, s1, flags.verbose, nil)
+	if verifOn {
+		verifEmit("phase", "kind", "ff1", "file", failfile)
+	}
 	err1 := checkOnce(t1, prop)
 	if err1 == nil {
 		return nil, nil, nil
@@ -305,6 +330,9 @@ func checkFailFile(tb tb, failfile string, prop func(*T)) ([]uint64, *testError,
 	s2 := newBufBitStream(buf, false)
 	t2 := newT(tb, s2, flags.verbose, nil)
 	t2.Logf("[rapid] trying to reproduce the failure")
+	if verifOn {
+		verifEmit("phase", "kind", "ff2", "file", failfile)
+	}
 	err2 := checkOnce(t2, prop)
 
 	return buf, err1, err2
@@ -333,6 +361,9 @@ func findBug(tb tb, deadline time.Time, checks int, seed uint64, prop func(*T)) 
 		seed += uint64(iter)
 		r.init(seed)
 		start := time.Now()
+		if verifOn {
+			verifEmit("phase", "kind", "gen", "iter", iter, "seed", seed, "valid", valid, "invalid", invalid)
+		}
 		if t.shouldLog() {
 			t.Logf("[rapid] test #%v start (seed %v)", iter+1, seed)
 		}
@@ -365,6 +396,10 @@ func checkOnce(t *T, prop func(*T)) (err *testError) {
 	if t.tbLog {
 		t.tb.Helper()
 	}
+	if verifOn {
+		verifEmit("once.begin")
+		defer func() { verifEmit("once.end", "err", verifErr(err)) }()
+	}
 	defer func() { err = panicToError(recover(), 3) }()
 
 	defer t.cleanup()
@@ -377,6 +412,9 @@ func checkOnce(t *T, prop func(*T)) (err *testError) {
 func captureTestOutput(tb tb, prop func(*T), buf []uint64) []byte {
 	var b bytes.Buffer
 	l := log.New(&b, fmt.Sprintf("[%v] ", tb.Name()), log.Lmsgprefix|log.Ldate|log.Ltime|log.Lmicroseconds)
+	if verifOn {
+		verifEmit("phase", "kind", "capture", "buf", verifWords(buf))
+	}
 	_ = checkOnce(newT(tb, newBufBitStream(buf, false), false, l), prop)
 	return b.Bytes()
 }
